@@ -165,14 +165,16 @@ def gen_desc(rng):
                 r = rng.random()
                 sid = 'u%d' % (j + 1)
                 if r < 0.1 and not has_catch:
-                    sts = [{'op': 'catch', 'exc': rng.choice(['filter', 'value', ['filter', 'key']])}]
+                    sts = [{'op': 'catch', 'exc': rng.choice(['filter', 'value', ['filter', 'key'],
+                                                                 ['value', 'stopiter']])}]
                 elif r < 0.2:
                     sts = [{'op': 'prefetch', 'w': rng.randrange(1, 4), 'b': 3, 'backend': 't'}]
                     if rng.random() < 0.5:
                         sts[0]['w'] = 1
                     if rng.random() < 0.3:
                         # the prefetch stage itself drops failing examples
-                        sts[0]['catch'] = rng.choice([True, 'value', ['filter', 'key'], 'index'])
+                        sts[0]['catch'] = rng.choice([True, 'value', ['filter', 'key'], 'index',
+                                                      ['filter', 'stopiter']])
                 elif 0.3 <= r < 0.34:
                     # a user-written stage inside the profiled pipeline
                     sts = [{'op': 'userstage', 'plain': rng.random() < 0.6}]
@@ -211,7 +213,7 @@ def gen(rng, tier, index):
         sites = [s['id'] for s in desc['stages'][:upto] if s['op'] == 'map'] or ['u0']
         for _ in range(rng.randrange(1, 3)):
             faults.append({'stage': rng.choice(sites), 'pos': rng.randrange(n),
-                           'exc': rng.choice(['filter', 'value', 'key', 'index'])})
+                           'exc': rng.choice(['filter', 'value', 'key', 'index', 'stopiter'])})
     nout = len(a.elems) if a.elems is not None else n
     cases = []
     base = {'desc': desc, 'faults': faults, 'seed': rng.randrange(1 << 30)}
